@@ -16,6 +16,11 @@ PROP = "C18"
 POSITIONS = [
     ("fact", "t(1).", True, True, False, False),
     ("head", "t(X) :- x(X).", True, True, False, False),
+    ("fact_pool", "t(1;2).", True, True, False, False),
+    ("head_pool", "t(X;X+1) :- x(X).", True, True, False, False),
+    ("body_pool", "a :- t(1;2).", True, False, None, False),
+    ("body_neg_pool", "a :- x(X), not t(X;X+1).", True, False, None, False),
+    ("choice_pool", "{ t(1;2) }.", True, True, False, False),
     ("head_neg", "not t(X) :- x(X).", True, False, None, False),
     ("choice_lit", "{ t(X) : x(X) }.", True, True, False, False),
     ("choice_cond", "{ a(X) : t(X) }.", True, False, None, False),
